@@ -214,7 +214,7 @@ class FlattenTVUnit:
     def streams(self, tier):
         s = seed()
         if tier == "quick":
-            return [["flatten", "1", "2", "1", "0", "small"], ["flatten", "3", "3", "60", str(s), "small"],
+            return [["flatten", "1", "2", "1", "0", "small"], ["flatten", "3", "3", "150", str(s), "small"],
                     ["flatten", "1", "1", "1", "0", "all"], ["flatten", "2", "2", "160", str(s), "all"]]
         return [["flatten", "1", "3", "1", "0", "small"], ["flatten", "4", "4", "400", str(s), "small"],
                 ["flatten", "1", "1", "1", "0", "all"], ["flatten", "2", "2", "4", str(s), "all"]]
@@ -232,7 +232,7 @@ class FlattenTVUnit:
             return r
         streams = self.streams(tier)
         r.bounds = {"graphs": "all DAGs with K interior nodes over {neg,add,sub,min,and} ('small') x operands {X,Y,1.5,(0.0 for K<=2),earlier node}, "
-                    "1-3 roots incl. duplicate and constant roots; 'all' = every unary/binary opcode; quick: K<=2 exhaustive, K=3 1-in-60, "
+                    "1-3 roots incl. duplicate and constant roots; 'all' = every unary/binary opcode; quick: K<=2 exhaustive, K=3 1-in-150, "
                     "all-opcode K=1 exhaustive and K=2 1-in-160; thorough: K<=3 exhaustive, K=4 1-in-400, all-opcode K=2 1-in-4",
                     "streams": [" ".join(a) for a in streams]}
         cand = []
